@@ -38,6 +38,8 @@ MUTATORS = {
 
 
 def run(ctx: Ctx) -> None:
+    if getattr(ctx, "_depth", 0) >= 2:
+        return  # alias of an alias: not followed (breaks import cycles between rule modules)
     repo = ctx.repo
     ctx.rule("C09.R1", "the DATA payload handed to h2 comes from pop(n) with n = max(0, min(local_flow_control_window(stream_id), max_outbound_frame_size))", floor=4)
     ctx.rule("C09.R2", "when nothing could be sent the stream is blocked in (or removed from) the priority tree before _send_data returns (no spinning)", floor=1)
